@@ -160,10 +160,16 @@ def translate_symbolic(src: str) -> dict:
         if len(body) != 2 or not isinstance(body[0], ast.If) or not isinstance(body[1], ast.Return):
             raise Untranslatable(f"{cname}.__str__ shape")
         fold_ret = body[0].body[0]
-        if not (len(body[0].body) == 1 and isinstance(fold_ret, ast.Return) and isinstance(fold_ret.value, ast.JoinedStr) and len(fold_ret.value.values) == 1
-                and isinstance(fold_ret.value.values[0], ast.FormattedValue)):
+        if not (len(body[0].body) == 1 and isinstance(fold_ret, ast.Return)):
             raise Untranslatable(f"{cname} folding branch")
-        fold = _arith(fold_ret.value.values[0].value, {"_lhs": "a", "_rhs": "b"})
+        fv = fold_ret.value
+        if isinstance(fv, ast.JoinedStr) and len(fv.values) == 1 and isinstance(fv.values[0], ast.FormattedValue):
+            fold_expr = fv.values[0].value                      # f"{<expr>}"
+        elif isinstance(fv, ast.Call) and isinstance(fv.func, ast.Name) and fv.func.id == "_const_str" and len(fv.args) == 1 and not fv.keywords:
+            fold_expr = fv.args[0]                              # _const_str(<expr>): the constant printer (model: Symbolic.const_str)
+        else:
+            raise Untranslatable(f"{cname} folding branch")
+        fold = _arith(fold_expr, {"_lhs": "a", "_rhs": "b"})
         js = body[1].value
         if not isinstance(js, ast.JoinedStr):
             raise Untranslatable(f"{cname} print branch")
